@@ -107,7 +107,8 @@ def hook_violation(pid, seg, label, what):
 
 def sweep(ctx, bin_path, label, wd, violations, per_prop, samples):
     total_ops = total_checked = programs = 0
-    pids = _sweep.line_protocol_properties(ctx["root"], exclude={"C18"})
+    # every claimed line-protocol property, plus C18's own float / formatting workload (protocol none)
+    pids = _sweep.line_protocol_properties(ctx["root"], exclude={"C18"}) + ["C18"]
     for pid in pids:
         ops, _ops_path = _sweep.generate(ctx, pid, ctx["tier"], ctx["seed"], wd)
         if not ops:
@@ -209,6 +210,38 @@ def own_workload_release(ctx, wd, violations, per_prop, samples):
     return len(ops), hook[0] if hook else 0
 
 
+def unmonitored_raw_accesses(repo):
+    """Premise of the monitor: every raw unchecked element access of the crate (slice
+    `get_unchecked(_mut)`, `unwrap_unchecked`, raw-pointer reads) sits in one of the leaf accessors
+    right behind a `verif_hooks::…_access` call.  Regenerated on every run; a new raw access
+    without the monitor in front of it is reported with file:line."""
+    import re
+    hits = []
+    src = os.path.join(repo, "src")
+    for base, _d, files in sorted(os.walk(src)):
+        for fn in sorted(files):
+            if not fn.endswith(".rs") or fn == "verif_hooks.rs":
+                continue
+            path = os.path.join(base, fn)
+            lines = open(path, encoding="utf-8", errors="replace").read().split("\n")
+            in_block = False
+            for i, raw in enumerate(lines):
+                line = raw
+                if in_block:
+                    if "*/" in line:
+                        in_block = False
+                    continue
+                if "/*" in line and "*/" not in line:
+                    in_block = True
+                    line = line.split("/*")[0]
+                line = line.split("//")[0]
+                if re.search(r"\.get_unchecked(_mut)?\(|\.unwrap_unchecked\(|from_raw_parts|\bptr::(read|write|copy)\b", line):
+                    before = "\n".join(lines[max(0, i - 12):i])
+                    if "verif_hooks::" not in before:
+                        hits.append(f"{os.path.relpath(path, repo)}:{i + 1}: {raw.strip()[:100]}")
+    return hits
+
+
 VIEW_MODULE = "EasyMl.Props.C10Views"
 VIEW_THEOREMS = ["EasyMl.C10.view_unchecked_inBounds", "EasyMl.C10.view_unchecked_inBounds_matrix"]
 ALLOWED_AXIOMS = {"propext", "Classical.choice", "Quot.sound"}
@@ -258,6 +291,11 @@ def run(ctx):
     n_checked += own_checked
     # concrete failing inputs first
     violations.sort(key=lambda v: 1 if v.get("no_failing_input") else 0)
+    raw = unmonitored_raw_accesses(ctx["repo"])
+    if raw:
+        violations.append({"case": "unmonitored raw unchecked access", "kind": "premise", "no_failing_input": True,
+                           "broken": "premise of the C10 sweep: every raw unchecked element access of the crate is "
+                                     "behind the verif-hooks monitor", "hits": raw[:20]})
     view_audit, view_log = audit_view_module(ctx)
     broken = [r for r in view_audit if not r["ok"]]
     if broken:
@@ -266,7 +304,7 @@ def run(ctx):
                            "build_log": view_log,
                            "explanation": "These proof obligations are no longer discharged by Lean."})
     cov = {"evaluations": n_ops, "distinct_nontrivial": DISTINCT[0],
-           "second_module_theorems": view_audit, "traces_validated_against_impl": programs,
+           "second_module_theorems": view_audit, "unmonitored_raw_unchecked_accesses": raw, "traces_validated_against_impl": programs,
            "programs": programs, "unchecked_accesses_monitored": n_checked, "monitored_workloads": per_prop}
     return {"violations": violations[:8], "coverage": cov, "samples": samples}
 
